@@ -1515,7 +1515,11 @@ impl Date {
             -1 => self.yesterday(),
             1 => self.tomorrow(),
             days => {
-                let days = UnixEpochDay::try_new("days", days).with_context(
+                // The number of days to add can be bigger than any single
+                // Unix epoch day (e.g., going from `Date::MAX` to a date
+                // before the epoch), so it is checked against the range of
+                // days in a span and not the range of epoch days.
+                let days = t::SpanDays::try_new("days", days).with_context(
                     || {
                         err!(
                             "{days} computed from duration {duration:?} \
@@ -1523,8 +1527,9 @@ impl Date {
                         )
                     },
                 )?;
-                let days =
-                    self.to_unix_epoch_day().try_checked_add("days", days)?;
+                let days = self
+                    .to_unix_epoch_day()
+                    .try_checked_add("days", UnixEpochDay::rfrom(days))?;
                 Ok(Date::from_unix_epoch_day(days))
             }
         }
